@@ -389,3 +389,41 @@ def main_check(pid, module_run, level="exploration"):
         shutil.rmtree(ctx.work, ignore_errors=True)
         rc = EXIT_HARNESS
     return rc
+
+
+def replay_generic(pid, path):
+    """./check Cnn --replay DIR : show the recorded violation and re-run its command on the current build."""
+    vj = os.path.join(path, "violation.json")
+    if not os.path.exists(vj):
+        print("no violation.json under", path)
+        return EXIT_HARNESS
+    v = json.load(open(vj))
+    print("property %s\nsignature %s\nwhat %s" % (v.get("property"), v.get("signature"), v.get("what")))
+    info = v.get("info") or {}
+    argv = info.get("argv") or info.get("argv_never") or info.get("container_argv")
+    if not argv:
+        print("(no command recorded for this violation)")
+        return EXIT_OK
+    s4 = build_s4()
+    case = os.path.join(path, "case")
+    # recorded paths point into the (deleted) work directory of the run: map them onto the saved copy
+    def remap(a):
+        if isinstance(a, str) and "/work/" in a and os.path.isdir(case):
+            tail = a.split("/", a.count("/"))[-1]
+            for root, _, files in os.walk(case):
+                if tail in files:
+                    return os.path.join(root, tail)
+        return a
+    argv = [s4] + [remap(a) for a in argv[1:]]
+    env = info.get("env") or base_env()
+    env = {k: v for k, v in env.items() if isinstance(v, str)}
+    r = run(argv, env, timeout=300, cwd=case if os.path.isdir(case) else None)
+    print("command: %s\nexit status: %s\nstdout (%d bytes) head: %r\nstderr tail: %r" % (" ".join(argv), r.rc, len(r.out), r.out[:400], r.err[-400:]))
+    for name in ("expected.stdout", "plain.stdout", "default.stdout"):
+        p = os.path.join(path, name)
+        if os.path.exists(p):
+            same = open(p, "rb").read() == r.out
+            print("stdout equals %s: %s" % (name, same))
+            if name == "expected.stdout":
+                return EXIT_OK if same else EXIT_VIOLATION
+    return EXIT_OK
